@@ -252,9 +252,13 @@ func (vl *CommitVoteList) toVoteList(
 	for _, item := range vl.Items {
 		msg.Timestamp = item.Timestamp
 		msg.setSignature(item.Signature)
-		vIdx := validators.IndexOf(msg.address())
+		addr := msg.address()
+		if addr == nil {
+			return nil, errors.Errorf("bad signature in vote list")
+		}
+		vIdx := validators.IndexOf(addr)
 		if vIdx < 0 {
-			return nil, errors.Errorf("not a validator address=%s", msg.address().String())
+			return nil, errors.Errorf("not a validator address=%s", addr.String())
 		}
 		msg.NTSDProofParts = proofParts[vIdx]
 		rvl.AddVote(msg)
